@@ -346,7 +346,7 @@ class Guard:
 def _limits():
     """Watchdog handler; a recursion limit that the nesting depths used here (<= 3 groups) stay far
     below, so that unbounded recursion over cyclic nesting surfaces as RecursionError quickly."""
-    signal.signal(signal.SIGALRM, _alarm)
+    signal.signal(signal.SIGVTALRM, _alarm)
     sys.setrecursionlimit(400)
 
 
@@ -386,7 +386,7 @@ QUERIES = {"O": ("captured_path", "captured_segments", "captured_edges"),
 
 def run_case(gfapy, case, pool, cid):
     g = Guard()
-    signal.setitimer(signal.ITIMER_REAL, 10.0)
+    signal.setitimer(signal.ITIMER_VIRTUAL, 10.0)
     try:
         gfa = gfapy.Gfa(version="gfa2", vlevel=1)
         ev = []
@@ -427,7 +427,7 @@ def run_case(gfapy, case, pool, cid):
             qs.append(q)
         val, _ = g.call(lambda: gfa.validate())
     finally:
-        signal.setitimer(signal.ITIMER_REAL, 0)
+        signal.setitimer(signal.ITIMER_VIRTUAL, 0)
     return {"id": cid, "ev": ev, "q": qs, "val": val,
             "exp": [[c[0], c[2]] for c in case["cls"]] if case.get("from_tlc", True) else [],
             "notes": g.notes}
